@@ -11,7 +11,7 @@ from nrel.hive.state.vehicle_state.vehicle_state import (
     VehicleState,
     VehicleStateInstanceId,
 )
-from nrel.hive.state.vehicle_state.vehicle_state_ops import charge
+from nrel.hive.state.vehicle_state.vehicle_state_ops import charge, jumps_the_queue
 from nrel.hive.state.vehicle_state.vehicle_state_type import VehicleStateType
 from nrel.hive.util.exception import SimulationStateError
 from nrel.hive.util.typealiases import BaseId, VehicleId, ChargerId
@@ -107,6 +107,10 @@ class ChargingBase(VehicleState):
                 elif not mechatronics.valid_charger(charger):
                     msg = f"vehicle of type {vehicle.mechatronics_id} can't use charger; context: {context}"
                     return SimulationStateError(msg), None
+                elif jumps_the_queue(sim, vehicle, station.id, self.charger_id):
+                    # first come, first served: a vehicle waiting in the station's queue does not
+                    # take one of its plugs through the base past vehicles that queued earlier
+                    return None, None
                 else:
                     # check out this charger from the station
                     error, updated_station = station.checkout_charger(self.charger_id)
